@@ -1,6 +1,7 @@
 package eng
 
 import (
+	"os"
 	"fmt"
 	"go/token"
 	"go/types"
@@ -217,6 +218,9 @@ func (e *Engine) makeRange(fr *Frame, x *ssa.Range) Value {
 			}
 			for _, en := range ma.Obj.Ents {
 				it.Slots = append(it.Slots, iterSlot{ma.G, en})
+				if os.Getenv("VERIF_PROGRESS") == "3" {
+					fmt.Fprintf(os.Stderr, "  slot map=%d key=%s present=%s\n", ma.Obj.ID, e.show(en.Key), en.Present.Dump(1))
+				}
 			}
 		}
 		return it
@@ -240,6 +244,9 @@ func (e *Engine) next(fr *Frame, x *ssa.Next) Value {
 		}
 	}
 	kt, vt := tup.At(1).Type(), tup.At(2).Type()
+	if os.Getenv("VERIF_PROGRESS") == "3" {
+		fmt.Fprintf(os.Stderr, "next at %s: pos=%d slots=%d\n", e.posStr(x.Pos()), it.Pos, len(it.Slots))
+	}
 	for it.Pos < len(it.Slots) {
 		s := it.Slots[it.Pos]
 		it.Pos++
@@ -546,7 +553,17 @@ func (e *Engine) builtin(name string, args []Value, c *ssa.CallCommon, pos token
 	case "len":
 		switch x := args[0].(type) {
 		case *SliceV:
-			return e.sliceLen(x)
+			r := e.sliceLen(x)
+			if os.Getenv("VERIF_DEBUG_UB") != "" && tb.UB(r) >= 5 {
+				fmt.Fprintf(os.Stderr, "len bound %d at %s:", tb.UB(r), e.posStr(pos))
+				for _, al := range x.Alts {
+					if al.Arr != nil {
+						fmt.Fprintf(os.Stderr, " [arr=%d(%s) cells=%d ML1=%d ubLen=%d off=%s]", al.Arr.ID, al.Arr.Site, len(al.Arr.E), al.ML1, tb.UB(al.Len), al.Off.Dump(1))
+					}
+				}
+				fmt.Fprintln(os.Stderr)
+			}
+			return r
 		case *StrV:
 			return e.strLen(x)
 		case *MapV:
